@@ -206,8 +206,8 @@ CHECKS = {
              "(coder chain per folder, packed CRCs, packpos > 0, kDummy, EmptyFile vector, partial time/attribute vectors, "
              "non-minimal NUMBERs, raw/LZMA/AES header), read by py7zr and validated by TLC (TraceHeader) against Sem(L) incl. "
              "bytes, timestamps, attributes; the 62 third-party fixtures are compared member by member with the reference reader.",
-        note="Trusted: TLC, harness/refcodec (self-tested against the fixtures). Coder order inside a folder follows the 7-Zip convention.",
-        technique="TLA+ spec (Header) exhaustively model-checked + TLC-enumerated layouts written by an independent writer and read by the code + trace validation (TraceHeader)",
+        note="Trusted: TLC, harness/refcodec (self-tested against the fixtures).",
+        technique="TLA+ specs (Header, Folder) exhaustively model-checked with negative controls + TLC-enumerated layouts and coder graphs written by an independent writer and read by the code + trace validation (TraceHeader, TraceFolder)",
         design_ref="3.2, 4 C06",
     ),
     "C07": dict(
@@ -291,18 +291,29 @@ ADDENDA = {
            "lead it outside) is part of the quick tier.",
     "C04": "One sample archive holds a symbolic-link member and is extracted into a directory, judged by link targets.",
     "C05": "Compound attacks include a file count admitted by zero padding behind the header's END mark (open known finding).",
-    "C06": "The reference writer also emits partially defined packed-stream CRC vectors.",
-    "C07": "Nothing may follow the end header the start header points at.",
+    "C06": "The reference writer also emits partially defined packed-stream CRC vectors. Folder.tla models the coder graph of a folder (records in "
+           "any order, bind pairs written in any order, hostile pairs) against the reader's walk; all 159 well-formed graphs of <= 4 simple coders "
+           "are executed with coder chains that do not commute and CRCs at substream / folder / none, and the pipeline the reader built is validated "
+           "by TraceFolder (negative control: the reader that decodes in record order).",
+    "C07": "Nothing may follow the end header the start header points at. Sessions of one archive differ in whether they encrypt.",
     "C09": "Absent names include string prefixes of member names and the empty string; the recursive flag is passed as False/None/0 and True/1; "
-           "decoding calls follow one another without reset() (ReadSession.ExtractResets, negative control).",
-    "C10": "Archives with partially defined time vectors and FILETIMEs beyond the year 9999: the listed time of every member is judged.",
+           "decoding calls follow one another without reset() (ReadSession.ExtractResets, negative control); folders that store no digests.",
+    "C10": "Archives with partially defined time vectors and FILETIMEs beyond the year 9999: the listed time of every member is judged. "
+           "Multi-session archives whose chains end in the same coder (plain first, 7zAES later): method names and needs_password.",
+    "C17": "Header round trips include partially defined substream digest vectors (an undefined entry in front of a defined one).",
     "C13": "Error classes: damaged data, unwritable output (Parallel.FailLast), a worker process that dies; the process option also with a "
-           "WriterFactory; an archive opened by a relative name followed by chdir.",
-    "C14": "Every crash image is also handed to an append session (mode 'a' + one member + close): refused, or old/new members plus its own.",
-    "C15": "Rejected arguments: climbing or absolute name, wrong content type, wrong name type, text stream, a name UTF-16 cannot hold, an embedded NUL.",
-    "C16": "Traversal shapes are also spelled with backslashes (a separator in the 7z name table); source files whose names hold backslashes.",
-    "C18": "Extractions without a callback between those with one; the process option with a callback.",
-    "C19": "'a' on a header-damaged archive (must fail and leave it untouched); 'c -v 200b' on 400 KB (delegated library, known finding).",
+           "WriterFactory; an archive opened by a relative name followed by chdir. Worker threads are made to meet at the entry of Worker._check "
+           "and Worker.decompress (k-th call with k-th call); members of different folders that are siblings differing in the last suffix only.",
+    "C14": "Every crash image is also handed to an append session (mode 'a' + one member + close): refused, or old/new members plus its own. "
+           "Create sessions also run on a stream that already holds an archive.",
+    "C15": "Rejected arguments: climbing or absolute name, wrong content type, wrong name type, text stream, a name UTF-16 cannot hold, an embedded NUL. "
+           "Members written after a failed write() (symbolic links to the failed source among them) are compared with a control session without the call.",
+    "C16": "Traversal shapes are also spelled with backslashes (a separator in the 7z name table); source files whose names hold backslashes. "
+           "Refused names are also offered right behind an accepted sibling that shares their directory part (verdicts must not depend on history).",
+    "C18": "Extractions without a callback between those with one; the process option with a callback; selections that leave members behind the "
+           "last selected one; callbacks that hold up the reporter in its last handlers only.",
+    "C19": "'a' on a header-damaged archive (must fail and leave it untouched); 'c -v 200b' on 400 KB (delegated library, known finding); "
+           "a volume size with an upper-case unit; a damaged member whose recorded name is the empty string.",
     "C20": "Several folders decoded at the same time; a member flagged as a symbolic link; an encoded header padded to 512 MiB (open known finding).",
 }
 
